@@ -354,6 +354,13 @@ def io_ReadFull (s : Src) (n : Int) : List UInt8 × Option Err × Src :=
   else if got.length = 0 then (got, io_EOF, rest)
   else (got, io_ErrUnexpectedEOF, rest)
 
+/-- `io.ReadFull` from a source that is just its bytes (it ends cleanly) -/
+def io_ReadFullB (s : List UInt8) (n : Int) : List UInt8 × Option Err × List UInt8 :=
+  let got := s.take n.toNat
+  if got.length = n.toNat then (got, none, s.drop n.toNat)
+  else if got.length = 0 then (got, io_EOF, [])
+  else (got, io_ErrUnexpectedEOF, [])
+
 /-- one `Read` into a buffer of `n ≥ 1` bytes: data if any is left, else the end -/
 def io_Read (s : Src) (n : Int) : List UInt8 × Option Err × Src :=
   match s.data with
